@@ -219,6 +219,14 @@ def execute(case):
         # the cloner documents that it assumes topologically sorted graphs
         return dict(failures=[], nontrivial=False, classes=classes + ["unsorted_input_skipped"])
     # --- clone ---------------------------------------------------------------------------------
+    if deep:
+        # analysis results kept in `meta` are often mutable containers: with deep_copy=True the clone must get its own
+        for g_ in _all_graphs(model):
+            g_.meta["c13_mut"] = ["graph", g_.name]
+            for n_ in g_:
+                n_.meta["c13_mut"] = {"node": [n_.name]}
+        for v_ in _values_of(_all_graphs(model)):
+            v_.meta["c13_mut"] = ["value", v_.name]
     subs = list(model.graph.subgraphs())
     exc = None
     orig_part = clone_part = None
@@ -305,6 +313,31 @@ def execute(case):
     if shared:
         what = sorted({s.split(" ")[0] + ("." + s.rsplit(".", 1)[1] if "." in s.split(" ", 1)[1] and s.rsplit(".", 1)[1] in ("type", "shape", "metadata_props", "meta", "attributes", "opset_imports") else "") for s in shared})
         fails.append((f"shared-object/{','.join(what)[:50]}", f"{kind}: clone and original share {shared[:4]}"))
+    if deep:
+        def meta_objs(graphs):
+            out = {}
+            for g_ in graphs:
+                for owner, label in [(g_, f"graph {g_.name}")] + [(n_, f"node {n_.name} of graph {g_.name}") for n_ in g_]:
+                    for k_, val in owner.meta.items():
+                        if isinstance(val, (list, dict, set)):
+                            out[id(val)] = f"{label}.meta[{k_!r}]"
+            for v_ in _values_of(graphs):
+                for k_, val in v_.meta.items():
+                    if isinstance(val, (list, dict, set)):
+                        out[id(val)] = f"value {v_.name}.meta[{k_!r}]"
+            return out
+
+        mo, mc = meta_objs(go), meta_objs(gc)
+        both = [mo[k] for k in mo if k in mc]
+        if both:
+            nested = any(g_ is not go[0] for g_ in go for lbl in both if f"graph {g_.name}" in lbl)
+            fails.append((f"deep-copy-shares-meta-value/{'nested' if nested else 'top'}", f"{kind}(deep_copy=True): mutable meta values shared with the original: {both[:3]}"))
+        if "GraphView" in kind:  # the view is an object of its own: the viewed graph's own meta store is not the view's
+            mo = {k: v for k, v in mo.items() if not v.startswith(f"graph {go[0].name}.meta")}
+            mc = {k: v for k, v in mc.items() if not v.startswith(f"graph {gc[0].name}.meta")}
+        if len(mc) != len(mo):
+            fails.append(("deep-copy-lost-meta-value", f"{kind}(deep_copy=True): {len(mo)} mutable meta values in the original, {len(mc)} in the clone"))
+        classes.append("deep_copy_meta")
     # --- 3. references point into the clone -----------------------------------------------------------
     defined = {id(v) for v in _values_of(gc)}
     orig_defined = {id(v) for v in _values_of(go)}
